@@ -5,7 +5,7 @@ From Coq Require Import List NArith ZArith Bool PeanoNat.
 Import ListNotations.
 From Mos Require spec.Relayout spec.Expand.
 From Mos Require Import model.I64 Gen.BinOps model.Expr Gen.OpcodeTable spec.Isa model.Encode.
-From Mos Require Import model.SymTab Gen.CodegenConsts model.Segment model.Asm proofs.AsmSim proofs.AsmFuel proofs.ExpandProofs proofs.ExpandWhole proofs.AsmWitnesses.
+From Mos Require Import model.SymTab Gen.CodegenConsts model.Segment model.Asm proofs.AsmSim proofs.AsmFuel proofs.ExpandProofs proofs.ExpandWhole proofs.ExpandStable proofs.ExpandDiag proofs.AsmWitnesses.
 Open Scope Z_scope.
 
 (* `.if c {a} else {b}` is exactly the statements of the branch selected by the value of c, in the same scope. *)
@@ -101,6 +101,42 @@ Theorem C07_whole_program_partial : forall p p' passes F o cf,
   exists cf', codegen passes (S F) o p' = Done cf' /\ E cf cf' /\ segment_image cf = segment_image cf' /\ symbols cf = symbols cf'.
 Proof. exact whole_program. Qed.
 Print Assumptions C07_whole_program_partial.
+
+(* WHOLE PROGRAMS, conditions and counts that depend on symbols (C07_whole_program_stable_conditions).  Closedness is replaced by
+   stability over the run: chi assigns values to expressions; XpS expands the `.if`s / `.loop`s whose condition / count is
+   closed OR is a string-free expression e with chi e = x; codegen_okc is the diagnostic-free run of the original program
+   that additionally checks, on the log of EVERY pass, that each evaluation of such an e gave x.  Then -- proved, not assumed --
+   the expansion runs through the same passes and ends with the same table and images.  (A condition whose value differs
+   between passes, e.g. one on a label that is unknown in the first pass, fails the check: there the two programs really
+   do run different passes.) *)
+Theorem C07_whole_program_stable_conditions : forall chi p p' passes F o cf,
+  XpS chi p p' -> codegen_okc (chk_of chi) passes F o p = Some cf ->
+  codegen passes F o p = Done cf /\
+  exists cf', codegen passes (S F) o p' = Done cf' /\ E cf cf' /\ segment_image cf = segment_image cf' /\ symbols cf = symbols cf'.
+Proof. exact whole_program_stable_chk. Qed.
+Print Assumptions C07_whole_program_stable_conditions.
+
+(* WHOLE PROGRAMS, runs with diagnostics (C07_whole_program_if_diagnostics).  For the expansion XpI of `.if`s with a closed
+   condition (at any nesting depth inside blocks, labelled blocks, kept loops and segment blocks) NO assumption on the run
+   is needed: statement by statement the expansion has the same outcome -- value, diagnostics in the same order, context --
+   so the two programs run through the same passes, with the same transient diagnostics, and codegen ends the same way:
+   Done with the same table and images, or Failed with the same list of diagnostics.  (The hypothesis-free form does not
+   extend to `.loop`: a diagnostic in an iteration ends the loop, but the blocks of the expansion all run -- the
+   diagnostics then differ, see design.d/C07.md.) *)
+Theorem C07_whole_program_if_diagnostics : forall p p' passes F o,
+  XpI p p' ->
+  match codegen passes F o p with
+  | Done cf => exists cf', codegen passes (S F) o p' = Done cf' /\ E cf cf' /\ segment_image cf = segment_image cf' /\ symbols cf = symbols cf'
+  | Failed errs cf => exists cf', codegen passes (S F) o p' = Failed errs cf' /\ E cf cf'
+  | Aborted _ => True
+  end.
+Proof.
+  intros p p' passes F o X. pose proof (whole_program_if p p' passes F o X) as R.
+  destruct (codegen passes F o p) as [cf|errs cf|f]; [|exact R|exact I].
+  destruct R as (cf' & H' & HE). exists cf'. split; [exact H'|]. split; [exact HE|].
+  unfold E, core in HE. inversion HE. unfold segment_image. split; congruence.
+Qed.
+Print Assumptions C07_whole_program_if_diagnostics.
 
 (* fuel is only a bound: a statement that does not run out of fuel does the same with more fuel *)
 Theorem C07_fuel_monotone : forall k fuel t, Le (emit_token fuel t) (emit_token (k + fuel) t).
@@ -211,4 +247,50 @@ Proof.
     + repeat apply Xp_keep. apply Xp_nil.
     + apply Xp_nil.
   - eexists. vm_compute. reflexivity.
+Qed.
+
+(* stable, symbol-dependent count: `.const K = 2` / `.loop K { dex / bne - }` against `.const K = 2` and the two blocks *)
+Definition t_K : ident := [75]%N.
+Definition chi_K (e : expr) : option Z :=
+  match e with EId [k] None false false => if text_eqb k t_K then Some 2 else None | _ => None end.
+Definition count_K : lexpr := mkL (EId [t_K] None false false) (sp 6 7) [sp 6 7].
+Definition const_K : token := TVarDef VConst t_K (sp 1 2) (mkL (ENum 10 [50%N] false false) (sp 3 4) []).
+Definition prog_loop_K : list token := [ const_K; TLoop count_K t_sc (Blk (sp 8 9) (sp 20 21) body_dex_bne) ].
+Definition prog_blocks_K : list token :=
+  [ const_K;
+    it_block count_K t_sc (sp 8 9) (sp 20 21) body_dex_bne (mkL (ENum 10 [48%N] false false) (0, 0) []) 0;
+    it_block count_K t_sc (sp 8 9) (sp 20 21) body_dex_bne (mkL (ENum 10 [49%N] false false) (0, 0) []) 1 ].
+Example C07_example_stable_count :
+  XpS chi_K prog_loop_K prog_blocks_K /\ exists c, codegen_okc (chk_of chi_K) 10 10 default_options prog_loop_K = Some c.
+Proof.
+  split.
+  - unfold prog_loop_K, prog_blocks_K. apply XpS_keep.
+    apply (XpS_loop chi_K count_K 2 t_sc (sp 8 9) (sp 20 21) body_dex_bne body_dex_bne
+             [mkL (ENum 10 [48%N] false false) (0, 0) []; mkL (ENum 10 [49%N] false false) (0, 0) []] [] []).
+    + right. split; reflexivity.
+    + vm_compute. discriminate.
+    + reflexivity.
+    + cbn. repeat split.
+    + repeat apply XpS_keep. apply XpS_nil.
+    + apply XpS_nil.
+  - eexists. vm_compute. reflexivity.
+Qed.
+
+(* runs with diagnostics: `.if 1 { lda nowhere }` fails with "unknown identifier" after two passes, and so does `lda nowhere` *)
+Definition t_nowhere : ident := [110; 111]%N.
+Definition lda_nowhere : token :=
+  TInstr Lda (sp 10 13) (Some (mkL (EId [t_nowhere] None false false) (sp 14 16) [sp 14 16], Isa.FAbs)).
+Definition prog_if_fails : list token :=
+  [ TIf (mkL (ENum 10 [49%N] false false) (sp 4 5) []) (Blk (sp 6 7) (sp 20 21) [lda_nowhere]) None ].
+Example C07_example_if_diagnostics :
+  XpI prog_if_fails [lda_nowhere] /\
+  exists errs c c', errs <> [] /\ codegen 10 10 default_options prog_if_fails = Failed errs c /\
+                    codegen 10 11 default_options [lda_nowhere] = Failed errs c'.
+Proof.
+  split.
+  - unfold prog_if_fails. apply (XpI_if _ 1 _ None [lda_nowhere] [] []).
+    + repeat split.
+    + cbn. apply XpI_keep. apply XpI_nil.
+    + apply XpI_nil.
+  - eexists. eexists. eexists. vm_compute. repeat split. discriminate.
 Qed.
